@@ -571,15 +571,16 @@ func InfoFor(certPkix, encPub, nonce []byte, nb, na time.Time) *types.FetchNodeC
 // ---------------------------------------------------------------------------
 
 type World struct {
-	Ctx     context.Context
-	Backend Backend
-	Inner   nodeenrollment.Storage
-	Rec     *RecStorage            // recorder around Inner
-	Store   nodeenrollment.Storage // what the library is given (Rec or a NodeIdStorage around it)
-	NodeID  *NodeIdStorage         // non-nil when Store implements NodeIdLoader
-	SW      wrapping.Wrapper       // storage wrapper or nil
-	Opts    []nodeenrollment.Option
-	cleanup func()
+	Ctx       context.Context
+	Backend   Backend
+	Inner     nodeenrollment.Storage
+	Rec       *RecStorage            // recorder around Inner
+	Store     nodeenrollment.Storage // what the library is given (Rec or a NodeIdStorage around it)
+	NodeID    *NodeIdStorage         // non-nil when Store implements NodeIdLoader
+	SW        wrapping.Wrapper       // storage wrapper or nil
+	Opts      []nodeenrollment.Option
+	Bystander *Actor // optional: an enrolled node the flow under test must not touch
+	cleanup   func()
 }
 
 type WorldConfig struct {
